@@ -655,4 +655,227 @@ theorem lmpRun_frame_torn (N : Nat) (hN : 1 ≤ N) (f : LmpF) (hf : f.WF N) (st 
           rw [if_neg hlast, if_neg hcond]
           simp [finish]
 
+/-! ### one poll, all polls -/
+
+theorem lmpCount_fst_le (ls : List Nat) (n : Nat) : (lmpCount ls n).1 ≤ ls.length := by
+  rcases lmpCount_spec ls n with ⟨_, hm⟩ | ⟨_, hm, _, hlt⟩
+  · rw [hm]; exact completeCount_le ls n
+  · rw [hm]; omega
+
+theorem lmpCount_late_pos (ls : List Nat) (n : Nat) (h : (lmpCount ls n).2 = true) : 1 ≤ (lmpCount ls n).1 := by
+  rcases lmpCount_spec ls n with ⟨hb, _⟩ | ⟨_, hm, _, _⟩
+  · rw [hb] at h; cases h
+  · rw [hm]; omega
+
+/-- **one poll, loop level** (from a frame boundary): the frames accepted are those `lmpCount` says -/
+theorem lmpRun_frames (N : Nat) (hN : 1 ≤ N) (rest : List LmpF) (hwf : ∀ f ∈ rest, f.WF N) (n : Nat)
+    (st : LSt) (hst : LReady N st) :
+    finish (fun st => (st.traj, st.pos)) (lmpRun (lines ((rest.map LmpF.enc).flatten.take n)) st)
+      = .ok (st.traj ++ (rest.map (LmpF.decode N)).take (lmpCount (rest.map LmpF.len) n).1,
+             st.pos + sumLens ((rest.map LmpF.len).take (lmpCount (rest.map LmpF.len) n).1)
+               - (if (lmpCount (rest.map LmpF.len) n).2 then 1 else 0)) := by
+  induction rest generalizing n st with
+  | nil => simp [lines, lmpRun, finish, lmpCount, sumLens]
+  | cons f rest ih =>
+    have hf := hwf f (by simp)
+    have hrest : ∀ g ∈ rest, g.WF N := fun g hg => hwf g (by simp [hg])
+    simp only [List.map_cons, List.flatten_cons]
+    by_cases hle : f.enc.length ≤ n
+    · rw [List.take_append, List.take_of_length_le hle]
+      have hl := lines_flatten_append f.lines hf.allLines
+        (List.take (n - f.enc.length) (List.map LmpF.enc rest).flatten)
+      have hfull := lmpRun_frame_as N hN f hf f.atoms (fun a ha => (hf.atoms a ha).tok)
+        (by rw [hf.natoms]; exact Nat.le_refl _) st hst
+      rw [if_pos hf.natoms] at hfull
+      rw [show f.enc ++ List.take (n - f.enc.length) (List.map LmpF.enc rest).flatten
+            = f.lines.flatten ++ List.take (n - f.enc.length) (List.map LmpF.enc rest).flatten from rfl,
+        hl, lmpRun_append, show f.lines = f.hdr ++ f.atoms from rfl, hfull]
+      simp only []
+      have hready : LReady N ⟨st.i + 9 + f.atoms.length, N, N + 9, zeros N 6, zeros 3 3,
+          st.traj ++ [(f.atoms.foldl (lplace N) (zeros N 6), [boxRow f.b0, boxRow f.b1, boxRow f.b2])],
+          st.tell + (f.hdr ++ f.atoms).flatten.length, st.tell + (f.hdr ++ f.atoms).flatten.length⟩ := by
+        refine ⟨?_, Or.inr ⟨by simp only []; omega, rfl, rfl, rfl, rfl⟩, rfl⟩
+        simp only [hf.natoms]
+        rw [Nat.add_assoc, show 9 + N = N + 9 by omega, Nat.add_mod_right]; exact hst.imod
+      rw [ih hrest _ _ hready]
+      have hcc : lmpCount (f.len :: rest.map LmpF.len) n
+          = ((lmpCount (rest.map LmpF.len) (n - f.len)).1 + 1, (lmpCount (rest.map LmpF.len) (n - f.len)).2) := by
+        simp [lmpCount, LmpF.len, hle]
+      rw [hcc]
+      simp only [List.take_succ_cons, sumLens, List.append_assoc, List.cons_append, List.nil_append,
+        LmpF.len, hst.pos]
+      have hfe : (f.hdr ++ f.atoms).flatten.length = f.enc.length := rfl
+      rw [hfe]
+      have hdec : (f.atoms.foldl (lplace N) (zeros N 6), [boxRow f.b0, boxRow f.b1, boxRow f.b2]) = f.decode N := rfl
+      rw [hdec, Nat.add_assoc st.tell]
+      congr
+    · have hlt : n < f.enc.length := by omega
+      rw [List.take_append_of_le_length (by omega), lmpRun_frame_torn N hN f hf st hst n hlt]
+      by_cases hlate : n + 1 = f.enc.length
+      · have h2 : f.enc.length = n + 1 := by omega
+        have hcc : lmpCount (f.len :: rest.map LmpF.len) n = (1, true) := by
+          have h3 : ¬ (n + 1 ≤ n) := by omega
+          simp only [lmpCount, LmpF.len, h2, h3, if_false, if_true]
+        rw [hcc, if_pos hlate]
+        simp only [List.take_succ_cons, List.take_zero, sumLens, LmpF.len, if_true, hst.pos]
+        congr 2
+        omega
+      · have h2 : ¬ f.enc.length = n + 1 := by omega
+        have hcc : lmpCount (f.len :: rest.map LmpF.len) n = (0, false) := by
+          simp only [lmpCount, LmpF.len, hle, if_false, h2]
+        rw [hcc, if_neg hlate]
+        simp [sumLens]
+
+theorem flatten_lenc_length (fs : List LmpF) :
+    ((fs.map LmpF.enc).flatten).length = sumLens (fs.map LmpF.len) := by
+  induction fs with
+  | nil => simp [sumLens]
+  | cons f fs ih => simp [sumLens, ih, LmpF.len]
+
+theorem endsNl_lframes (N : Nat) (fs : List LmpF) (hwf : ∀ f ∈ fs, f.WF N) (hne : fs ≠ []) :
+    endsNl ((fs.map LmpF.enc).flatten) = true := by
+  induction fs with
+  | nil => exact absurd rfl hne
+  | cons f fs ih =>
+    have hf := hwf f (by simp)
+    have he : endsNl f.enc = true := endsNl_flatten f.lines hf.allLines (by simp [LmpF.lines, LmpF.hdr])
+    cases fs with
+    | nil => simpa using he
+    | cons g gs =>
+      rw [List.map_cons, List.flatten_cons]
+      exact endsNl_append_of_endsNl _ _ (ih (fun x hx => hwf x (by simp [hx])) (by simp))
+
+/-- **one poll from a frame boundary** -/
+theorem lmpReader_poll (N : Nat) (hN : 1 ≤ N) (done rest : List LmpF) (hwf : ∀ f ∈ rest, f.WF N) (c : Nat) :
+    lmpReader ((((done ++ rest).map LmpF.enc).flatten).take c) ((done.map LmpF.enc).flatten).length
+      = .ok ((rest.map (LmpF.decode N)).take
+               (lmpCount (rest.map LmpF.len) (c - ((done.map LmpF.enc).flatten).length)).1,
+             ((done.map LmpF.enc).flatten).length + sumLens ((rest.map LmpF.len).take
+               (lmpCount (rest.map LmpF.len) (c - ((done.map LmpF.enc).flatten).length)).1)
+               - (if (lmpCount (rest.map LmpF.len) (c - ((done.map LmpF.enc).flatten).length)).2 then 1 else 0)) := by
+  unfold lmpReader
+  rw [List.drop_take, List.map_append, List.flatten_append, List.drop_left]
+  have := lmpRun_frames N hN rest hwf (c - ((done.map LmpF.enc).flatten).length)
+    (lInit ((done.map LmpF.enc).flatten).length) (lInit_ready N _)
+  simpa [lInit] using this
+
+/-- **one poll in the "late newline" state**: nothing is returned; the newline, if visible, is skipped -/
+theorem lmpReader_poll_late (N : Nat) (done rest : List LmpF) (hwf : ∀ f ∈ done, f.WF N) (hne : done ≠ [])
+    (c : Nat) :
+    lmpReader ((((done ++ rest).map LmpF.enc).flatten).take c) (((done.map LmpF.enc).flatten).length - 1)
+      = .ok ([], if c < ((done.map LmpF.enc).flatten).length then ((done.map LmpF.enc).flatten).length - 1
+                 else ((done.map LmpF.enc).flatten).length) := by
+  have hnl := endsNl_lframes N done hwf hne
+  obtain ⟨A', hA⟩ : ∃ A', (done.map LmpF.enc).flatten = A' ++ ['\n'] := by
+    have : ((done.map LmpF.enc).flatten).getLast? = some '\n' := by simpa [endsNl] using hnl
+    exact List.getLast?_eq_some_iff.mp this
+  have hlen : ((done.map LmpF.enc).flatten).length = A'.length + 1 := by rw [hA]; simp
+  unfold lmpReader
+  rw [List.drop_take, List.map_append, List.flatten_append, hlen, hA]
+  simp only [Nat.add_sub_cancel]
+  have hdrop : List.drop A'.length (A' ++ ['\n'] ++ (rest.map LmpF.enc).flatten)
+      = '\n' :: (rest.map LmpF.enc).flatten := by
+    rw [List.append_assoc, List.drop_left]; rfl
+  rw [hdrop]
+  by_cases hc : c < A'.length + 1
+  · have : c - A'.length = 0 := by omega
+    simp [this, lines, lmpRun, finish, lInit, hc]
+  · obtain ⟨m, hm⟩ : ∃ m, c - A'.length = m + 1 := ⟨c - A'.length - 1, by omega⟩
+    simp [hm, lines, lmpRun, lmpStep, lInit, finish, hc]
+
+/-- **all polls**: the real loop, polled on growing prefixes, behaves exactly as `lmpStages` says -/
+theorem lmp_pollAll (N : Nat) (hN : 1 ≤ N) (frames : List LmpF) (hwf : ∀ f ∈ frames, f.WF N)
+    (cuts : List Nat) (done : Nat) (late : Bool) (hd : done ≤ frames.length) (hl : late = true → 1 ≤ done) :
+    pollAll lmpReader ((frames.map LmpF.enc).flatten) cuts
+        (sumLens ((frames.map LmpF.len).take done) - (if late then 1 else 0))
+      = .ok (lmpStages (frames.map LmpF.len) (frames.map (LmpF.decode N)) cuts done late) := by
+  induction cuts generalizing done late with
+  | nil => simp [pollAll, lmpStages]
+  | cons c cs ih =>
+    have hsplit : frames = frames.take done ++ frames.drop done := (List.take_append_drop done frames).symm
+    have hpos : ((List.map LmpF.enc (frames.take done)).flatten).length
+        = sumLens ((frames.map LmpF.len).take done) := by
+      rw [flatten_lenc_length, List.map_take]
+    have hwfr : ∀ f ∈ frames.drop done, f.WF N := fun f hf => hwf f (List.mem_of_mem_drop hf)
+    have hwfd : ∀ f ∈ frames.take done, f.WF N := fun f hf => hwf f (List.mem_of_mem_take hf)
+    cases late with
+    | true =>
+      have hd1 := hl rfl
+      have hne : frames.take done ≠ [] := by
+        intro h
+        have := congrArg List.length h
+        rw [List.length_take, List.length_nil] at this; omega
+      have hpoll := lmpReader_poll_late N (frames.take done) (frames.drop done) hwfd hne c
+      rw [← hsplit, hpos] at hpoll
+      simp only [if_true, pollAll, hpoll, lmpStages]
+      by_cases hc : c < sumLens ((frames.map LmpF.len).take done)
+      · simp only [hc, if_true]
+        have := ih done true hd hl
+        simp only [if_true] at this
+        rw [this]
+      · simp only [hc, if_false]
+        have := ih done false hd (by intro h; cases h)
+        simp only [Bool.false_eq_true, if_false, Nat.sub_zero] at this
+        rw [this]
+    | false =>
+      have hpoll := lmpReader_poll N hN (frames.take done) (frames.drop done) hwfr c
+      rw [← hsplit, hpos] at hpoll
+      simp only [Bool.false_eq_true, if_false, Nat.sub_zero, pollAll, hpoll, lmpStages]
+      have hm := lmpCount_fst_le ((frames.drop done).map LmpF.len) (c - sumLens ((frames.map LmpF.len).take done))
+      simp only [List.length_map, List.length_drop] at hm
+      have hnext := ih (done + (lmpCount ((frames.drop done).map LmpF.len)
+          (c - sumLens ((frames.map LmpF.len).take done))).1)
+        (lmpCount ((frames.drop done).map LmpF.len) (c - sumLens ((frames.map LmpF.len).take done))).2
+        (by omega)
+        (fun h => by have := lmpCount_late_pos _ _ h; omega)
+      rw [sumLens_take_add'] at hnext
+      simp only [List.map_drop] at hnext hm ⊢
+      rw [hnext]
+
+/-! ### what `decode` stores where -/
+
+/-- the row an atom line is stored in: `int(spl[0]) - 1` as a numpy index -/
+def atomIdx (N : Nat) (a : Line) : Option Nat :=
+  (parseInt ((split a).headD [])).bind (fun id => pyIndex N (id - 1))
+
+theorem lplace_eq (N : Nat) (arr : List (List Tok)) (a : Line) :
+    lplace N arr a = match atomIdx N a with
+      | some k => arr.set k (((split a).drop 2).take 6)
+      | none => arr := by
+  unfold lplace atomIdx
+  cases parseInt ((split a).headD []) with
+  | none => rfl
+  | some id => cases pyIndex N (id - 1) <;> rfl
+
+theorem foldl_lplace_keep (N : Nat) (bs : List Line) (arr : List (List Tok)) (k : Nat)
+    (h : ∀ b ∈ bs, atomIdx N b ≠ some k) : (bs.foldl (lplace N) arr)[k]? = arr[k]? := by
+  induction bs generalizing arr with
+  | nil => rfl
+  | cons b bs ih =>
+    rw [List.foldl_cons, ih _ (fun x hx => h x (by simp [hx])), lplace_eq]
+    have hb := h b (by simp)
+    cases hi : atomIdx N b with
+    | none => rfl
+    | some j =>
+      have : j ≠ k := by intro e; apply hb; rw [hi, e]
+      simp [List.getElem?_set, this]
+
+/-- **values exactly as written, at row `id − 1`**: if the atom lines of a frame go to pairwise different
+    rows, the decoded array holds in the row of each atom its six tokens `x y z vx vy vz` -/
+theorem decode_row (N : Nat) (atoms : List Line) (arr : List (List Tok))
+    (hd : atoms.Pairwise (fun x y => atomIdx N x ≠ atomIdx N y)) (a : Line) (ha : a ∈ atoms) (k : Nat)
+    (hk : atomIdx N a = some k) (hlt : k < arr.length) :
+    (atoms.foldl (lplace N) arr)[k]? = some (((split a).drop 2).take 6) := by
+  induction atoms generalizing arr with
+  | nil => simp at ha
+  | cons b bs ih =>
+    rw [List.pairwise_cons] at hd
+    rw [List.foldl_cons]
+    rcases List.mem_cons.mp ha with rfl | hmem
+    · rw [foldl_lplace_keep N bs _ k (fun x hx => by rw [← hk]; exact (hd.1 x hx).symm), lplace_eq, hk]
+      simp [hlt]
+    · apply ih _ hd.2 hmem
+      rw [lplace_eq]
+      cases atomIdx N b <;> simp [hlt]
+
 end Infretis.Readers
